@@ -52,6 +52,9 @@ def _ops(keys, values, cid=None):
                 ('setdefault', k, values[1]), ('setitem', k, values[0]), ('setitem', k, values[3])]
         if cid not in ('dict', 'null'):
             ops.append(('setitem_bad', k))      # in memory every value "encodes
+    # a default that IS the stored value (None, a small int, a short string are shared objects): the key is present all the same
+    for v in values:
+        ops += [('pop', keys[0], v), ('popkeys', (keys[0],), v), ('setdefault', keys[-1], v)]
     if cid not in ('dict', 'null'):
         ops.append(('setitem_bad_then_other_handle', keys[0]))
     ops += [('len',), ('keys',), ('values',), ('items',), ('iter',), ('popitem',), ('clear',), ('copy',), ('copy_named',), ('eq',), ('eq_none',),
